@@ -70,7 +70,8 @@ def _nontrivial_tree(t):
 
 
 def _style(sd):
-    return X.Style(parens=sd["parens"], case=sd["case"], space=sd["space"], ref_case=sd["ref_case"], quote=sd["quote"], newline=sd["newline"])
+    return X.Style(parens=sd["parens"], case=sd["case"], space=sd["space"], ref_case=sd["ref_case"], quote=sd["quote"], newline=sd["newline"],
+                   bare_if=sd.get("bare_if", False))
 
 
 def build_document(case):
@@ -260,8 +261,20 @@ def doc_strategy(max_depth=3, mutants=False):
             if d <= 0:
                 return leaf()
             sub = st.deferred(lambda: num(d - 1))
+            lit = st.sampled_from(NUMS[1:]).map(lambda v: ["num", v])
+
+            def chain(ops):
+                # x op n1 op n2 ... : left-to-right chains of one precedence level with literal operands
+                def fold(items):
+                    tree = items[0]
+                    for o, operand in items[1]:
+                        tree = ["bin", o, tree, operand]
+                    return tree
+                return st.tuples(sub, st.lists(st.tuples(st.sampled_from(ops), st.one_of(lit, lit, leaf())), min_size=2, max_size=4)).map(fold)
             return st.one_of(
                 leaf(),
+                chain(["*", "/", "%", "*", "/"]), chain(["+", "-"]), chain(["*", "/", "**"]),
+                st.tuples(st.sampled_from(["+", "-"]), sub, st.tuples(cond(d - 1), sub, sub).map(lambda x: ["if", x[0], x[1], x[2]])).map(lambda x: ["bin", x[0], x[1], x[2]]),
                 st.tuples(st.sampled_from(["+", "-", "*", "/", "+", "-", "*", "**", "%"]), sub, sub).map(lambda x: ["bin", x[0], x[1], x[2]]),
                 sub.map(lambda x: ["neg", x]),
                 st.tuples(st.sampled_from(["abs", "sqrt", "exp", "ln", "log10", "int", "round", "sin", "cos", "tan", "arctan", "percent"]), sub)
@@ -293,7 +306,7 @@ def doc_strategy(max_depth=3, mutants=False):
             "space": st.sampled_from([" ", "", "  "]),
             "ref_case": st.sampled_from(["lower", "upper", "title"]),
             "quote": st.sampled_from([False, False, True]),
-            "newline": st.booleans()})
+            "newline": st.booleans(), "bare_if": st.booleans()})
         for i, nm in enumerate(names):
             vid = "v%d" % i
             if i < 2:
@@ -353,7 +366,7 @@ def _body(ctx):
 
 
 def plan(tier):
-    n = 300 if tier == "quick" else 4000
+    n = 200 if tier == "quick" else 4000
     specs = [{"n": n, "depth": 2 + (i % 3), "mutants": False} for i in range(12)]
     specs += [{"n": n // 2, "depth": 2, "mutants": True} for i in range(4)]
     return specs
